@@ -10,6 +10,15 @@ fn main() {
         eprintln!("usage: check <C01..C17> [--tier quick|thorough] [--seed N] [--replay FILE] [--strict]");
         std::process::exit(2);
     }
+    if args[1] == "fuzz-replay" {
+        // deterministic, non-instrumented re-check of a fuzz artifact: `check fuzz-replay <target> <file>`
+        engine::install_panic_hook();
+        let data = std::fs::read(&args[3]).expect("artifact");
+        for (p, s, d) in fuzz_findings(&args[2], &data) {
+            println!("FINDING {} {} {}", p, s, d.replace('\n', " ").chars().take(500).collect::<String>());
+        }
+        std::process::exit(0);
+    }
     let id = args[1].clone();
     let mut tier = match std::env::var("VERIF_TIER").ok().as_deref() {
         Some("thorough") => Tier::Thorough,
@@ -58,6 +67,9 @@ fn main() {
         });
     }
     let run = || -> engine::Evidence {
+        if let Some(ev) = replay_fuzz_artifact(&ctx) {
+            return ev;
+        }
         match id.as_str() {
         "C01" => props::cpu::run(&ctx, props::cpu::Which::Semantics),
         "C15" => props::cpu::run(&ctx, props::cpu::Which::Cycles),
@@ -97,6 +109,72 @@ fn main() {
             }
         }
     };
+    let mut ev = ev;
+    if ctx.tier == Tier::Thorough && ctx.replay.is_none() {
+        merge_fuzz_stats(&ctx, &mut ev);
+    }
     let code = engine::finish(&ctx, ev);
     std::process::exit(code);
+}
+
+fn fuzz_target_of(id: &str) -> Option<&'static str> {
+    match id {
+        "C02" | "C03" | "C06" | "C16" => Some("fz_text"),
+        "C05" | "C11" | "C13" => Some("fz_machine"),
+        _ => None,
+    }
+}
+
+fn fuzz_findings(target: &str, data: &[u8]) -> Vec<h2a::fuzzsupport::Finding> {
+    match target {
+        "fz_text" => h2a::fuzzsupport::text_findings(data),
+        "fz_machine" => h2a::fuzzsupport::machine_findings(data),
+        _ => vec![],
+    }
+}
+
+/// `--replay` of a fuzz artifact (raw bytes, or a replay JSON of kind "fuzz" pointing at one)
+fn replay_fuzz_artifact(ctx: &Ctx) -> Option<engine::Evidence> {
+    let path = ctx.replay.as_ref()?;
+    let raw = std::fs::read(path).ok()?;
+    let artifact: Vec<u8> = match serde_json::from_slice::<serde_json::Value>(&raw) {
+        Ok(doc) if doc["kind"] == "fuzz" => std::fs::read(doc["case"]["artifact"].as_str()?).ok()?,
+        Ok(_) => return None,
+        Err(_) => raw,
+    };
+    let target = fuzz_target_of(&ctx.id)?;
+    let mut ev = engine::Evidence::new("exploration", "replay of a fuzz artifact through the deterministic oracles");
+    ev.evaluations = 1;
+    for (p, s, d) in fuzz_findings(target, &artifact) {
+        if p == ctx.id {
+            ev.violation("fuzz", &s, d, serde_json::json!({"artifact": path.display().to_string()}));
+        }
+    }
+    Some(ev)
+}
+
+/// thorough tier: fold the coverage-guided campaign (run by fuzz.sh just before) into the evidence
+fn merge_fuzz_stats(ctx: &Ctx, ev: &mut engine::Evidence) {
+    let target = match fuzz_target_of(&ctx.id) {
+        Some(t) => t,
+        None => return,
+    };
+    let path = format!("/verif/target/fuzz-stats-{}.json", target);
+    let doc: serde_json::Value = match std::fs::read_to_string(&path).ok().and_then(|t| serde_json::from_str(&t).ok()) {
+        Some(d) => d,
+        None => {
+            ev.extra.insert("fuzz_campaign".into(), serde_json::json!("not run"));
+            return;
+        }
+    };
+    ev.evaluations += doc["executions"].as_u64().unwrap_or(0);
+    ev.class(&format!("fuzz:{}:executions", target), doc["executions"].as_u64().unwrap_or(0));
+    if let Some(fs) = doc["findings"].as_array() {
+        for f in fs {
+            if f["property"] == ctx.id.as_str() {
+                ev.violation("fuzz", f["signature"].as_str().unwrap_or("fuzz"), f["detail"].as_str().unwrap_or("").to_string(), serde_json::json!({"artifact": f["artifact"]}));
+            }
+        }
+    }
+    ev.parts.push(doc);
 }
